@@ -607,3 +607,66 @@ Proof.
     + destruct tid as [|[|n]]; try reflexivity. cbn. destruct n; reflexivity.
   - repeat split; try reflexivity. eexists; split; reflexivity.
 Qed.
+
+(* ------------------------------------------------------------------------------------- *)
+(* readers during rotation (ECall KGet / KReady and the clients' steps interleaved with ERenew
+   and Run's lock steps are ordinary events of the system, so the theorems above already cover
+   them; the two corollaries below say what that means for a renewal and for a read)          *)
+
+(* Fixed code: whatever readers were active while renewals arrived, once no thread can move
+   every call has returned, Run is back in its loop and the newest fetched SVID is the one
+   served: no renewal is ever left waiting for the lock. *)
+Theorem renewal_published : forall es s,
+  run Fixed init es = Some s -> stuck Fixed s -> s_init s <> None ->
+  forallb returned (s_cl s) = true /\ (s_run s = RRot \/ s_run s = RRetErr) /\
+  s_cur s = hd_error (s_fetched s).
+Proof.
+  intros es s Hrun Hst Hi. pose proof (inv_run _ _ _ Hrun) as Hinv.
+  destruct (stuck_fixed s Hinv Hst) as (_ & H). destruct (H Hi) as (Hret & Hrr).
+  split; [exact Hret|]. split; [exact Hrr|].
+  pose proof (cur_is_latest _ _ _ Hrun) as Hc. destruct Hrr as [E|E]; rewrite E in Hc; exact Hc.
+Qed.
+
+(* Either variant: the step in which a reader (holding the read lock) reads the field returns the
+   newest fetched SVID, or the one before it while the newest has been fetched but Run is still
+   acquiring the write lock to store it. *)
+Theorem read_is_latest : forall v es s i c s',
+  run v init es = Some s -> nth_error (s_cl s) i = Some c -> c_pc c = GHold ->
+  step v s (EStep (S i)) = Some s' ->
+  (exists c', nth_error (s_cl s') i = Some c' /\ c_pc c' = GRet (s_cur s)) /\
+  (s_cur s = hd_error (s_fetched s) \/
+   exists x rest, s_fetched s = x :: rest /\ s_cur s = hd_error rest /\
+                  (s_run s = RWant x \/ s_run s = RPend x)).
+Proof.
+  intros v es s i c s' Hrun Hn Hpc Hs. cbn in Hs. rewrite Hn in Hs.
+  unfold step_client in Hs. rewrite Hpc in Hs. inversion Hs; subst s'; clear Hs.
+  split.
+  { eexists. split; [cbn; eapply nth_error_upd_same; eauto|reflexivity]. }
+  pose proof (cur_is_latest _ _ _ Hrun) as Hc.
+  pose proof (rw_exclusion _ _ _ Hrun) as Hex.
+  assert (Hrd : readers s = true).
+  { unfold readers. apply existsb_exists. exists c. split; [eapply nth_error_In; eauto|].
+    unfold holds_r. rewrite Hpc. reflexivity. }
+  destruct (s_run s) as [| | | |r|r| |x|x|x|] eqn:Erun; auto.
+  - (* RGot: the writer holds the lock, no reader can *)
+    assert (readers s = false) by (apply Hex; unfold wheld; rewrite Erun; reflexivity). congruence.
+  - destruct Hc as (rest & Hf & Hcur). right. eauto 7.
+  - destruct Hc as (rest & Hf & Hcur). right. eauto 7.
+  - assert (readers s = false) by (apply Hex; unfold wheld; rewrite Erun; reflexivity). congruence.
+Qed.
+
+(* non-vacuity: two readers and a Ready racing with a renewal; a reader that arrives while the
+   writer is waiting queues behind it, the reader inside finishes, the writer stores, the queued
+   reader gets the NEW SVID. *)
+Example readers_during_renewal :
+  exists s, run Fixed init [ECall KRun; EStep 0; EStep 0; EFetch (Some 1%Z); EStep 0; EStep 0;
+                            ECall KGet; EStep 1; EStep 1;        (* reader 1 holds the read lock *)
+                            ERenew 2%Z; EStep 0;                 (* renewal fetched; writer announced *)
+                            ECall KGet; EStep 2;                 (* reader 2: ready seen, queues behind the writer *)
+                            ECall KReady; EStep 3;
+                            EStep 1;                             (* reader 1 reads the old SVID and leaves *)
+                            EStep 0; EStep 0;                    (* writer in, store, out *)
+                            EStep 2; EStep 2] = Some s /\
+            map c_pc (s_cl s) = [GRet (Some 1%Z); GRet (Some 2%Z); YRetOk] /\
+            s_run s = RRot /\ s_cur s = Some 2%Z.
+Proof. eexists. vm_compute. repeat split. Qed.
